@@ -193,6 +193,12 @@ impl RK23 {
                 break;
             }
 
+            // Check for underflow due to machine rounding
+            if 0.1 * h.abs() <= x.abs() * Float::EPSILON {
+                status = Status::StepSizeTooSmall;
+                break;
+            }
+
             // Check for last step adjustment
             if (x + h - xend) * posneg > 0.0 {
                 h = xend - x;
@@ -300,9 +306,14 @@ impl RK23 {
             } else {
                 // Step rejected
                 steps.rejected += 1;
-                h *= (safety_factor * err.powf(error_exponent))
-                    .min(1.0)
-                    .max(scale_min);
+                let fac = safety_factor * err.powf(error_exponent);
+                // A NaN error norm (non-finite right-hand side) must shrink the step too;
+                // `NaN.min(1.0)` would leave h unchanged and the loop would never end.
+                h *= if fac.is_nan() {
+                    scale_min
+                } else {
+                    fac.min(1.0).max(scale_min)
+                };
             }
         }
 
